@@ -239,6 +239,20 @@ func (c *Ctx) solveOne(i int, o *Obligation, opts solveOpts) {
 	if o.ExpectSat {
 		res, out, ms := runSolver(solvers[0], file, 2)
 		record(solvers[0].name, res, out, ms)
+		if res == "unsat" && o.Before != nil {
+			// is the path infeasible already before the assumption under test?
+			o2 := *o
+			o2.Path = o.Before
+			f2 := file + ".before.smt2"
+			os.WriteFile(f2, []byte(c.queryText(&o2, false)), 0o644)
+			r2, _, ms2 := runSolver(solvers[0], f2, 2)
+			o.Ms += ms2
+			os.Remove(f2)
+			if r2 == "unsat" {
+				o.Result, o.Solver = "unknown", "infeasible path"
+				results = append(results, "before=unsat (path infeasible)")
+			}
+		}
 	} else {
 		// stage 1: the usually fastest solver with a short budget
 		short := 3
